@@ -120,6 +120,19 @@ def run(ctx):
         if t[0] != '0' or t[1] != '1': viol.append(dict(why='encoder kind %s re-initialised from preset %s/dict %s to preset %s/dict %s failed: %s %s' % (*w, t[0], t[1]), line=l[:300], stderr=''))
         elif int(t[2]) < int(t[4]) or int(t[2]) < int(t[3]): viol.append(dict(why='encoder kind %s re-initialised from preset %s/dict %s to preset %s/dict %s: %s bytes live right after the re-initialisation, peak %s during the second use, but the memory-usage function for the new options says %s' % (*w, t[3], t[4], t[2]), line=l[:300], stderr=''))
         elif t[5] != '0' or t[6] != '0': viol.append(dict(why='re-initialised encoder: %s bytes live after lzma_end, %s bad frees' % (t[5], t[6]), line=l[:300], stderr=''))
+    # ---- small dictionaries: LZMA2 keeps a whole 64 KiB chunk of history whatever the dictionary size
+    sd_l = ['reopt %d 0 %d 0 %d %s' % (kd, dsz, dsz, dd[:20000].hex()) for kd in (0, 2) for dsz in (4096, 8192, 16384, 32768, 61440, 65536)]
+    sd_o, sd_f = run_lines(drv, sd_l, shards=4)
+    small_dict_known = []
+    for l, o in zip(sd_l, sd_o):
+        if o is None: continue
+        w = l.split()[1:6]; t = o.split(); dsz = int(w[2])
+        if t[0] != '0' or t[1] != '1': viol.append(dict(why='encoder with a %d-byte dictionary failed: %s %s' % (dsz, t[0], t[1]), line=l[:300], stderr=''))
+        elif int(t[2]) < int(t[4]):
+            msg = dict(why='LZMA2 encoder (kind %s) with a %d-byte dictionary: %s bytes allocated, the memory-usage function says %s' % (w[0], dsz, t[4], t[2]), line=l[:300], stderr='')
+            if dsz < 65536 and int(t[4]) - int(t[2]) <= 98304: small_dict_known.append(msg)
+            else: viol.append(msg)
+    for msg in small_dict_known[:1]: ctx.violation('C09 ' + msg['why'], msg, key='lzma2-small-dict-memusage')
     # ---- threaded decoder: memlimit_threading / memlimit_stop
     tl, tm = [], []
     # A = large dictionary, little data; B = tiny dictionary, large input/output buffers; C = in between.  Fixed orders (what the
@@ -220,7 +233,7 @@ def run(ctx):
             if not expect_fail and r.returncode != 0: viol.append(dict(why='xz %s failed: %s' % (' '.join(args[:-1]), r.stderr.decode()[:200]), line='', stderr=''))
     finally:
         shutil.rmtree(td, ignore_errors=True)
-    ctx.cov['evaluations'] = len(lines) + len(elines) + len(tl) + len(rl) + len(rel) + len(ol) + len(mll) + 4 + len(cases) + len(pl) * (10 if ctx.quick() else 60)
+    ctx.cov['evaluations'] = len(lines) + len(elines) + len(tl) + len(rl) + len(rel) + len(ol) + len(mll) + len(sd_l) + 4 + len(cases) + len(pl) * (10 if ctx.quick() else 60)
     ctx.cov['distinct_nontrivial'] = len(stat) + len(emeta) + len(set((m[0], m[1] >= m[2]) for m in tm))
     ctx.cov['rule'] = 'decoders (stream, alone, auto, lzip, index, file_info) x dictionary sizes x limits {1, need/2, need-70000, need-1, need, need+1}; encoder estimates vs measured peak for 6 entry points x presets; threaded decoder on multi-Block files with varying chains under memlimit_threading (1x..3x single-thread need) and memlimit_stop (need-1, need, need+1); xz with user limits; distinct = (limit >= need?, error seen?) etc.'
     ctx.cov['input_distribution'] = dict(limited_runs=len(lines), estimate_runs=len(elines), mt_runs=len(tl))
